@@ -485,6 +485,10 @@ func (ex *Exec) VerifyLemma(l *Lemma) {
 		}
 		st.assume(t)
 	}
+	// vacuity guard: contradictory hypotheses would prove any goal
+	ex.obls = append(ex.obls, &Obligation{Name: name + "#cover", Kind: "cover", Props: propSet(l.Props), Fn: name, Goal: TFalse,
+		coverPaths: [][]*Term{append(append([]*Term(nil), st.pc...), ctx.side...)},
+		Note: "the hypotheses of this lemma are contradictory: it proves nothing"})
 	var conjuncts []*Expr
 	var split func(e *Expr)
 	split = func(e *Expr) {
